@@ -2,7 +2,7 @@
 # sweep_seeds.sh [tier]: run every seeded change against the check of its property; record result in meta.json
 TIER="${1:-quick}"
 cd /verif
-for d in seeded/*/; do
+for d in ${SEEDS:-seeded/[A-Z]*/}; do   # SEEDS="seeded/C01-A seeded/C02-B" restricts the sweep
   ID=$(basename $d)
   OUT=$(tools/try_seed.sh $ID $TIER 2>/dev/null | tail -1)
   echo "$OUT" | cut -c1-220
